@@ -67,6 +67,7 @@ inductive NStep
   | toDF (ns : List String)
   | groupAgg (keys aliases : List String)  -- groupBy(keys).agg(e.alias(a), …)
   | joinUsing (k : String) (right : List String)   -- join(other, k); `right` = other's column spellings
+  | unionByName (right : List String) (allowMissing : Bool)   -- `right` = other's column spellings
   deriving Repr
 
 def entry (F : NameFns) (n : String) : String × String := (F.key (F.low n), n)
@@ -83,6 +84,21 @@ def reselectOf (F : NameFns) (m : String) (d : NDF) : NDF :=
 
 def create (F : NameFns) (names : List String) : NDF :=
   { cols := names.map F.low, disp := if createRecordsDisplay then names.map (entry F) else [] }
+
+/-- columns of the other side that the receiver lacks (matched by normalised name) -/
+def rightOnly (F : NameFns) (lows : List String) (right : List String) : List String :=
+  right.filter (fun r => !(lows.contains (F.low r)))
+
+/-- `unionByName`: without `allowMissingColumns` the receiver is left as it is; with it both sides are
+    re-selected by their NORMALISED names given as strings (`self._columns`), through the public select:
+    every column's display name becomes its normalised text, the other side's extra columns included -/
+def unionStep (F : NameFns) (d : NDF) (right : List String) (allowMissing : Bool) : NDF :=
+  if allowMissing && unionByNameReselects then
+    let cols' := d.cols.map F.low ++ (rightOnly F (d.cols.map F.low) right).map F.low
+    { cols := cols', disp := cols'.map (fun c => (F.key c, c)) ++ d.disp }
+  else if allowMissing then
+    { d with cols := d.cols.map F.low ++ (rightOnly F (d.cols.map F.low) right).map F.low }
+  else d
 
 def nstep (F : NameFns) (d : NDF) : NStep → NDF
   | .select items =>
@@ -108,6 +124,7 @@ def nstep (F : NameFns) (d : NDF) : NStep → NDF
     { cols := F.low k :: (d.cols.map F.low).filter (fun c => c ≠ F.low k) ++ (right.map F.low).filter (fun c => c ≠ F.low k),
       disp := if joinKeepsRightDisplay then (right.filter (fun r => F.low r ≠ F.low k)).map (entry F) ++ d.disp
               else d.disp }
+  | .unionByName right allowMissing => unionStep F d right allowMissing
 
 def runSteps (F : NameFns) (d : NDF) : List NStep → NDF
   | [] => d
@@ -158,6 +175,7 @@ def specStep (F : NameFns) (sp : List String) : NStep → List String
   | .joinUsing k right =>
     sp.filter (fun s => F.low s = F.low k) ++ sp.filter (fun s => F.low s ≠ F.low k) ++
       right.filter (fun r => F.low r ≠ F.low k)
+  | .unionByName right allowMissing => if allowMissing then sp ++ rightOnly F (sp.map F.low) right else sp
 
 def specRun (F : NameFns) (sp : List String) : List NStep → List String
   | [] => sp
@@ -176,6 +194,7 @@ def StepWF (F : NameFns) (sp : List String) : NStep → Prop
   | .joinUsing k right =>
     F.low k ∈ sp.map F.low ∧ (right.map F.low).Nodup ∧
     ∀ r ∈ right, F.low r ≠ F.low k → F.low r ∉ sp.map F.low
+  | .unionByName right _ => (right.map F.low).Nodup
 
 -- ------------------------------------------------------------------------------------------------
 -- named scope hypotheses (one per root cause)
@@ -207,6 +226,11 @@ def joinKeyOk (F : NameFns) (k : String) : Bool := !(joinKeyLookupQuotePreservin
 
 def H_joinKeyQuoted (F : NameFns) (k : String) : Prop := joinKeyLookupQuotePreserving = false ∨ F.key (F.low k) = F.low k
 
+/-- unionByName(allowMissingColumns=True) re-selects both sides by their normalised names -/
+def H_unionMissing (F : NameFns) (sp right : List String) (allowMissing : Bool) : Prop :=
+  allowMissing = false ∨
+    (unionByNameReselects = true ∧ ∀ s ∈ sp ++ rightOnly F (sp.map F.low) right, F.low s = s)
+
 /-- the map key and the engine's typed-column name agree on quoting (schema view) -/
 def H_quoteAgree (F : NameFns) (sp : List String) : Prop := ∀ s ∈ sp, F.typed (F.low s) = F.key (F.low s)
 
@@ -219,6 +243,7 @@ def StepInScope (F : NameFns) (d : NDF) (sp : List String) : NStep → Prop
   | .toDF _ => H_toDF
   | .groupAgg keys aliases => H_groupAgg F d (keys ++ aliases)
   | .joinUsing k right => H_joinKeyQuoted F k ∧ H_joinRight F d k right
+  | .unionByName right allowMissing => H_unionMissing F sp right allowMissing
   | _ => True
 
 /-- every step is well-formed and in scope for the state the previous steps produce -/
@@ -233,6 +258,8 @@ instance (F : NameFns) (d : NDF) (l : List String) : Decidable (H_groupAgg F d l
   unfold H_groupAgg; exact inferInstance
 instance (F : NameFns) (d : NDF) (k : String) (l : List String) : Decidable (H_joinRight F d k l) := by
   unfold H_joinRight; exact inferInstance
+instance (F : NameFns) (sp right : List String) (a : Bool) : Decidable (H_unionMissing F sp right a) := by
+  unfold H_unionMissing; exact inferInstance
 instance (F : NameFns) (k : String) : Decidable (H_joinKeyQuoted F k) := by
   unfold H_joinKeyQuoted; exact inferInstance
 instance (F : NameFns) (sp : List String) : Decidable (H_quoteAgree F sp) := by
@@ -269,6 +296,7 @@ def stepViolated (F : NameFns) (d : NDF) (sp : List String) (s : NStep) : List S
     | .groupAgg _ _ => ["H_groupAgg"]
     | .joinUsing k right =>
       (if H_joinKeyQuoted F k then [] else ["H_joinKeyQuoted"]) ++ (if H_joinRight F d k right then [] else ["H_joinRight"])
+    | .unionByName _ _ => ["H_unionMissing"]
     | _ => []
 
 /-- does the program raise in the model (a using-join on a key that needs quoting)? -/
